@@ -656,6 +656,9 @@ func ruleMark(r *core.Reporter) {
 			}
 			if c := ir.BoolCallAtom(a, pkgModels+".allChildrenCompleted"); c != nil {
 				childEdges = append(childEdges, [2]any{ii.If.Block(), ii.EdgeWhen(true)})
+			} else if vc, isC := a.V.(*ssa.Call); isC && acc != nil && vc.Call.StaticCallee() == acc {
+				// the same helper after a function ↔ method conversion
+				childEdges = append(childEdges, [2]any{ii.If.Block(), ii.EdgeWhen(true)})
 			}
 		}
 		without := func(edges [][2]any) bool {
